@@ -276,10 +276,86 @@ def claim(stats, facts, neg, mode, syms, meta, lemmas='unary', refine=True, time
         else:
             soft = True
     _CEX_COUNT[key] = _CEX_COUNT.get(key, 0) + 1
+    if _has_uf(list(facts) + [neg], ('EXP', 'DIV', 'CEIL')) or soft:
+        # the solver's model fixes the abstracted functions only up to the lemma instances: look for a witness under their exact
+        # meaning (the model itself, then dyadic samples).  This only selects the replayable witness of a sat answer.
+        m2 = _exact_witness(list(facts), neg, m)
+        if m2 is not None:
+            m, soft = m2, False
+        else:
+            soft = True
     cex = dict(meta)
     cex['inputs'] = model_inputs(m, mode, syms) if mode is not None else {k: smt.model_val(m, v) for k, v in syms.items() if v is not None}
     cex['soft'] = soft
     return cex
+
+
+def _has_uf(fmls, names):
+    seen = set()
+    todo = list(fmls)
+    while todo:
+        e = todo.pop()
+        if not isinstance(e, z3.ExprRef) or e.get_id() in seen:
+            continue
+        seen.add(e.get_id())
+        if z3.is_app(e):
+            if e.decl().kind() == z3.Z3_OP_UNINTERPRETED and e.decl().name() in names:
+                return True
+            todo.extend(e.children())
+    return False
+
+
+class _EnvModel:
+    """model-like view of a concrete assignment {variable name: Fraction}"""
+    def __init__(self, env):
+        self.env = env
+
+    def eval(self, t, model_completion=True):
+        if z3.is_const(t) and t.decl().kind() == z3.Z3_OP_UNINTERPRETED:
+            return smt.rv(self.env.get(t.decl().name(), Fraction(0)))
+        return z3.simplify(z3.substitute(t, *[(z3.Real(k), smt.rv(v)) for k, v in self.env.items()]))
+
+
+def _free_consts(fmls):
+    seen, out, todo = set(), {}, list(fmls)
+    while todo:
+        e = todo.pop()
+        if not isinstance(e, z3.ExprRef) or e.get_id() in seen:
+            continue
+        seen.add(e.get_id())
+        if z3.is_const(e) and e.decl().kind() == z3.Z3_OP_UNINTERPRETED and e.sort() == z3.RealSort():
+            out[e.decl().name()] = e
+        elif z3.is_app(e):
+            todo.extend(e.children())
+    return out
+
+
+def _exact_witness(facts, neg, m, tries=400):
+    from . import validate
+    consts = _free_consts(facts + [neg])
+    if not consts or len(consts) > 24:
+        return None
+    fm = [f for f in facts if isinstance(f, z3.ExprRef)]
+
+    def holds(env):
+        fenv = {k: float(v) for k, v in env.items()}
+        try:
+            return all(validate.eval_term(f, fenv) for f in fm) and bool(validate.eval_term(neg, fenv))
+        except (KeyError, ZeroDivisionError, ValueError, OverflowError):
+            return False
+    env0 = {k: smt.model_val(m, v) for k, v in consts.items()}
+    if holds(env0):
+        return _EnvModel(env0)
+    rnd = random.Random(len(fm) * 7919 + len(consts))
+    grid = [Fraction(i, 4) for i in range(-12, 13)]
+    for t in range(tries):
+        env = dict(env0)
+        ks = list(consts)
+        for k in (ks if t % 3 == 0 else rnd.sample(ks, max(1, len(ks) // 2))):
+            env[k] = rnd.choice(grid)
+        if holds(env):
+            return _EnvModel(env)
+    return None
 
 
 # --------------------------------------------------------------------------------------------------
